@@ -191,6 +191,72 @@ func liveInjectCase(t *testing.T, r *Recorder, su epSetup, b []byte) {
 	r.Case(sc.Name, len(b) > 0, fmt.Sprintf("live/%d+%d+%d", su.acked, su.pending, su.peer))
 }
 
+// ackDuringResendCase: the relay delivers perfectly valid ACKs, but times them against the sender:
+// `pending` packets are outstanding (delivered to the peer, their ACKs held back); when the
+// sender's resend round re-emits its `at`-th packet the held ACKs are let through and processed
+// before the transport's send call returns. Valid packets at a chosen moment must not crash the
+// endpoint, and the connection must go on working.
+func ackDuringResendCase(t *testing.T, r *Recorder, n, pending, at int) {
+	sc := &GbnScenario{Name: fmt.Sprintf("ack-during-resend-n%d-p%d-at%d", n, pending, at), N: uint8(n),
+		Latency: time.Millisecond, Static: time.Second}
+	delivered := 0
+	res := RunGbnBody(t, sc, func(sim *Sim, conns [2]*gbn.GoBackNConn, res *GbnResult) {
+		var mu sync.Mutex
+		res.tw.Add(1)
+		go func() {
+			defer res.tw.Done()
+			for {
+				if _, err := conns[1].Recv(); err != nil {
+					return
+				}
+				mu.Lock()
+				delivered++
+				mu.Unlock()
+			}
+		}()
+		sim.pipes[1].Hold(true)
+		seen := map[byte]int{}
+		re := 0
+		sim.OnEmit = func(ep int, pkt []byte, by string) {
+			if ep != 0 || len(pkt) < 2 || pkt[0] != gbn.DATA {
+				return
+			}
+			seen[pkt[1]]++
+			if seen[pkt[1]] == 2 {
+				re++
+				if re == at {
+					sim.pipes[1].Hold(false)
+					synctest.Wait()
+				}
+			}
+		}
+		for i := 0; i < pending; i++ {
+			conns[0].Send(payloadFor(0, i, 2))
+		}
+		time.Sleep(5 * time.Second)
+		synctest.Wait()
+		sim.OnEmit = nil
+		sim.pipes[1].Hold(false)
+		conns[0].Send(payloadFor(0, 99, 2))
+		time.Sleep(5 * time.Second)
+		synctest.Wait()
+		mu.Lock()
+		mu.Unlock()
+	})
+	if res.Panic != "" {
+		r.Violate("C07/live-endpoint-panic", res.Panic, sc)
+		return
+	}
+	if res.HsErr[0] != "" || res.HsErr[1] != "" {
+		return
+	}
+	if delivered != pending+1 {
+		r.Violate("C07/endpoint-disabled-by-valid-packets", fmt.Sprintf("ACKs of %d outstanding packets delivered while the sender re-emitted its packet #%d of a resend round: afterwards %d of %d messages arrived",
+			pending, at, delivered, pending+1), sc)
+	}
+	r.Case(sc.Name, true, "ack-during-resend")
+}
+
 func TestC07(t *testing.T) {
 	r := NewRecorder(t, "C07")
 	defer r.Close(t)
@@ -279,6 +345,9 @@ func TestC07(t *testing.T) {
 	queueDiff(r, 2, pick(8, 16), allSeqs(), "queue-exh")
 	queueLarge(r, "queue-large")
 	queueMisc(r)
+	for _, c := range [][3]int{{3, 3, 1}, {3, 3, 2}, {3, 2, 1}, {5, 5, 1}, {5, 5, 3}, {5, 4, 2}, {20, 20, 1}, {20, 20, 10}} {
+		ackDuringResendCase(t, r, c[0], c[1], c[2])
+	}
 	// all 256 values of the SYN window field on a real server handshake
 	for n := 0; n < 256; n++ {
 		synCase(t, r, n)
